@@ -67,13 +67,15 @@ CLAIMED = {
               'starting with a numeral, ...) the token-level parser model returns exactly its abstract syntax tree, for all large '
               'enough fuel; proved by one mutual structural induction with continuation lemmas for the left-recursive levels, so '
               'every parent x child x operand-position combination, every depth, precedence, left associativity and the '
-              'non-associativity of comparisons are instances; the reserved words of the model are proved equal to the @@keyword '
-              'list regenerated from the live grammar. Tied to the code by (B) the Lean scanner + parser model against the shipped '
+              'non-associativity of comparisons are instances; C06_lex: the scanner model reads written tokens (words in any '
+              'letter case, integers with leading zeros, all decimal spellings, dates, strings in either quote, symbols, '
+              'placeholders) separated by blanks back as exactly their tokens; every natural number has a text that reads back '
+              '(C06_lit_int); the reserved words of the model are proved equal to the @@keyword list regenerated from the live grammar. Tied to the code by (B) the Lean scanner + parser model against the shipped '
               'parser on generated texts (random case, white space, comments, redundant parentheses, literal spellings), the full '
               'operator matrix, ~250 boundary forms and token-mutated malformed texts (accept/reject and AST), (S) the shipped '
               'parser returning the generated AST, (V) `python -m tatsu bql.ebnf` regenerated and compared with parser.py.'),
         design='DESIGN.md §5 C06',
-        note=NOTE_COMMON + 'PARTIAL: the theorem is at token level; the character level (scanner model: maximal munch, case folding, comments, literal spellings) is tied by correspondence only; TatSu/PEG semantics are modelled by a deterministic recursive-descent parser (validated by B); the driver runs the model with fuel 16*tokens+64 while the theorem speaks of all large enough fuel; identifiers OPEN/CLOSE/CLEAR/BETWEEN/NULL are outside the printable domain.',
+        note=NOTE_COMMON + 'PARTIAL: the parser theorem is at token level and the scanner theorem covers blank-separated written tokens; other white space, comments and adjacent tokens without a separator are tied by correspondence only; TatSu/PEG semantics are modelled by a deterministic recursive-descent parser (validated by B); the driver runs the model with fuel 16*tokens+64 while the theorem speaks of all large enough fuel; identifiers OPEN/CLOSE/CLEAR/BETWEEN/NULL are outside the printable domain.',
         technique='Lean 4 proof (token-level round trip by mutual induction) + model parser vs shipped parser + grammar translation validation'),
     'C07': dict(
         text=('Lean theorems over the compile/exec model: the naming rule (alias / column name / source text); compiled SELECT '
